@@ -103,6 +103,33 @@ Definition range_formula_entry (args : list sx) : sx :=
   | _ => bad_args
   end.
 
+(* any range of a sheet: [[r0; c0; h; w; text; result] …] = the array formulas (reference
+   range, text, what the formula's code returns), then the range r0 c0 nr nc; every other
+   cell is empty *)
+Definition dec_af (x : sx) : option (array_formula * pyval) :=
+  match x with
+  | SL [SZ r0; SZ c0; SZ h; SZ w; t; r] =>
+      match dec_val t, dec_val r with
+      | Some (VStr f), Some v =>
+          Some ({| af_r0 := r0; af_c0 := c0; af_h := h; af_w := w; af_text := f |}, v)
+      | _, _ => None
+      end
+  | _ => None
+  end.
+Definition sheet_range_entry (args : list sx) : sx :=
+  match args with
+  | [SL afs; SZ r0; SZ c0; SZ nr; SZ nc] =>
+      match dec_all dec_af afs with
+      | Some l =>
+          let fv := fun t => match find (fun p => str_eqb (af_text (fst p)) t) l with
+                             | Some p => snd p | None => VNone end in
+          enc_res (sheet_range_value (sheet_of (map fst l)) fv (fun _ _ => VNone)
+                                     r0 c0 (Z.to_nat nr) (Z.to_nat nc))
+      | None => bad_args
+      end
+  | _ => bad_args
+  end.
+
 Definition table : list entry :=
   [ E "op_fixup" (op_entry op_fixup)
   ; E "array_fixup" (op_entry array_fixup)
@@ -112,6 +139,7 @@ Definition table : list entry :=
   ; E "load_members" load_members_entry
   ; E "range_formula" range_formula_entry
   ; E "range_value" range_value_entry
+  ; E "sheet_range_value" sheet_range_entry
   ].
 
 Definition dispatch (name : list Z) (args : list sx) : sx :=
